@@ -99,6 +99,13 @@ class C10(F.Check):
                              key={"list": [x.name for x in us], "perm": [x.name for x in pm]}, family="perm")
                 ks.append(k)
                 self.closed.append((k.name, True, k.key))
+            # value-level spellings: common_point_unit(u...) and make_common_point(point makers...) denote the same type, in any order
+            for fi, pm in enumerate([us, us[::-1]] + ([us[1:] + us[:1]] if len(us) > 2 else [])):
+                k = F.Kernel("c10_fn_%d_%d" % (li, fi), "bool", [],
+                             "return std::is_same<std::remove_cv_t<decltype(common_point_unit(%s))>, %s>::value;" % (", ".join("%s{}" % u.cxx for u in pm), cpu),
+                             key={"list": [x.name for x in us], "function_spelling": [x.name for x in pm]}, family="function_spelling")
+                ks.append(k)
+                self.closed.append((k.name, True, k.key))
             rep = "CommonPointUnitT<%s>" % ", ".join(u.cxx for u in (us + [us[0]]))
             k = F.Kernel("c10_rep_%d" % li, "bool", [], "return std::is_same<%s, %s>::value;" % (cpu, rep),
                          key={"list": [x.name for x in us], "repeat": us[0].name}, family="repeat")
